@@ -174,7 +174,7 @@ package ct
 //@ at v assert [verifies-the-sth-signature-over-exactly-those-bytes] v.data == ser.res0 && v.sig == sth.TreeHeadSignature && v.s == s
 
 //@ func RawLogEntryFromLeaf
-//@ props C12
+//@ props C12 C07 C06
 //@ modifies nothing
 //@ site tls.Unmarshal#1 as ul
 //@ site tls.Unmarshal#2 as uc
@@ -222,7 +222,7 @@ package ct
 //@ at pc assert [the-precert-entry-tbs-bytes] pc.asn1Data == m.TimestampedEntry.PrecertEntry.TBSCertificate
 
 //@ func (*RawLogEntry).ToLogEntry
-//@ props C12
+//@ props C12 C07 C06
 //@ modifies nothing
 //@ site X509Certificate#1 as xc
 //@ site Precertificate#1 as pc
@@ -240,7 +240,7 @@ package ct
 //@ ensures [precert-entry-carries-submitted-cert-key-hash-and-parsed-tbs] result0 != nil && rle.Leaf.TimestampedEntry.EntryType == PrecertLogEntryType ==> result0.Precert != nil && result0.X509Cert == nil && result0.Precert.Submitted == rle.Cert && result0.Precert.IssuerKeyHash == rle.Leaf.TimestampedEntry.PrecertEntry.IssuerKeyHash && result0.Precert.TBSCertificate == pc.res0 && pc.res0 != nil && result1 == pc.res1
 
 //@ func LogEntryFromLeaf
-//@ props C12
+//@ props C12 C07 C06
 //@ modifies nothing
 //@ site RawLogEntryFromLeaf#1 as raw
 //@ site ToLogEntry#1 as tl
